@@ -14,11 +14,10 @@ are parameters: the gap list, the line tolerance `tol`, `preserve` (shouldPreser
 input) and, equivalently, with `List.count`. Conservation of text is stated on `nonspace`, the
 non-white-space characters.
 
-Not proved at full strength (recorded finding, see known_findings.txt): `element_tree_once`.
-The element tree suppresses paragraphs by box overlap; `element_tree_once_partial` proves
-conservation under the condition that the suppressed paragraphs show exactly the fragments of
-the headings and lists, and the two `_counterexample` theorems show a loss and a repetition when
-they do not.
+`element_tree_once` is proved at full strength for the tree after the repair 8ee0e52 (coverage
+decided by fragment identity; see known_findings.txt). The tree before it suppressed paragraphs
+by box overlap (`elementTreeOld`): `element_tree_old_once_partial` / `_old_once_iff` say when it
+conserved, the two `_pinned_counterexample` theorems show the recorded loss and repetition.
 -/
 namespace Tabula.C09
 open Tabula.Layout List
@@ -219,19 +218,42 @@ theorem blocks_conserve (brk : List (List Frag) → List Frag → List (List Fra
 
 def idsOf (es : List Elem) : List Nat := es.flatMap (·.ids)
 
-/-
-Full statement (FALSE for the code as it is, recorded finding):
-  `(idsOf (elementTree ov hs ls ps)).Perm (idsOf ps)` whenever the headings and lists show
-  fragments of the paragraphs.
--/
+/-- `element_tree_once` (full statement, after the repair 8ee0e52): whenever the headings and
+lists the tree emits show fragments of the paragraphs (as multisets of ids: no id more often than
+the paragraphs do), the tree shows every fragment of the paragraphs exactly once - the fragment
+ids of the tree are a permutation of those of the paragraphs. For every box of a remainder. -/
+theorem element_tree_once (rbox : Elem → List Nat → Box) (hs ls ps : List Elem)
+    (h : ∀ i, (idsOf (shownHeadings hs ls)).count i + (idsOf ls).count i ≤ (idsOf ps).count i) :
+    (idsOf (elementTree rbox hs ls ps)).Perm (idsOf ps) := by
+  rw [List.perm_iff_count]
+  intro i
+  have h1 := count_elementTree rbox hs ls ps i
+  have h2 := h i
+  unfold idsOf at *
+  omega
 
-/-- What holds: the tree consists of every heading, every list and exactly the paragraphs no
-heading/list box overlaps; the fragment ids are conserved if (and only to the extent that) the
-suppressed paragraphs show exactly the fragments of the headings and lists. -/
-theorem element_tree_once_partial (ov : Box → Box → Bool) (hs ls ps : List Elem)
+example : ∀ i, (idsOf (shownHeadings [⟨⟨72, 700, 100, 12⟩, [0]⟩] [])).count i + (idsOf []).count i ≤
+    (idsOf [⟨⟨72, 688, 100, 24⟩, [0, 1]⟩]).count i := by
+  intro i
+  by_cases h0 : i = 0
+  · subst h0; decide
+  · simp [idsOf, shownHeadings, List.count_cons, List.count_nil, Ne.symm h0]
+
+/-- with NO hypothesis: the repaired tree never loses a fragment of a paragraph -/
+theorem element_tree_never_loses (rbox : Elem → List Nat → Box) (hs ls ps : List Elem) (i : Nat) :
+    (idsOf ps).count i ≤ (idsOf (elementTree rbox hs ls ps)).count i := by
+  have h1 := count_elementTree rbox hs ls ps i
+  unfold idsOf
+  omega
+
+/-- the tree BEFORE the repair (recorded findings C09/elements-lost-paragraph-covered-by-heading-or-list
+and C09/elements-duplicated-heading-or-list-also-in-paragraph, fixed by 8ee0e52) conserved only
+under the condition that the suppressed paragraphs show exactly the fragments of the headings
+and lists. -/
+theorem element_tree_old_once_partial (ov : Box → Box → Bool) (hs ls ps : List Elem)
     (h : (idsOf (hs ++ ls)).Perm (idsOf (ps.filter (consumed ov hs ls)))) :
-    (idsOf (elementTree ov hs ls ps)).Perm (idsOf ps) := by
-  unfold elementTree idsOf at *
+    (idsOf (elementTreeOld ov hs ls ps)).Perm (idsOf ps) := by
+  unfold elementTreeOld idsOf at *
   rw [List.flatMap_append]
   have h2 : ((ps.filter (consumed ov hs ls)) ++ ps.filter (fun p => !consumed ov hs ls p)).Perm ps :=
     List.filter_append_perm _ ps
@@ -243,43 +265,48 @@ example : (idsOf [⟨⟨0, 0, 10, 10⟩, [0]⟩]).Perm
     (idsOf ([⟨⟨0, 0, 10, 10⟩, [0]⟩, ⟨⟨0, 50, 10, 10⟩, [1]⟩].filter (consumed bboxOverlaps [⟨⟨0, 0, 10, 10⟩, [0]⟩] []))) := by
   decide +kernel
 
-/-- loss: a heading detected on the whole-page line "A" overlaps the column paragraph "A B"
-(box of the paragraph 2 lines high, the heading covers more than half of the smaller box): the
-paragraph is suppressed and fragment 1 is in no element. -/
-theorem element_tree_loss_counterexample :
-    ¬ (idsOf (elementTree bboxOverlaps [⟨⟨72, 700, 100, 12⟩, [0]⟩] [] [⟨⟨72, 688, 100, 24⟩, [0, 1]⟩])).Perm
+/-- loss BEFORE the repair: a heading detected on the whole-page line "A" overlaps the column
+paragraph "A B" (box of the paragraph 2 lines high, the heading covers more than half of the
+smaller box): the paragraph is suppressed and fragment 1 is in no element. -/
+theorem element_tree_loss_pinned_counterexample :
+    ¬ (idsOf (elementTreeOld bboxOverlaps [⟨⟨72, 700, 100, 12⟩, [0]⟩] [] [⟨⟨72, 688, 100, 24⟩, [0, 1]⟩])).Perm
       (idsOf [⟨⟨72, 688, 100, 24⟩, [0, 1]⟩]) := by
   intro h
   have := h.length_eq
   revert this
   decide +kernel
 
-/-- repetition: the same heading in the second column, where the paragraph box is
-column-relative (x = 0) while the heading box is absolute (x = 320): no overlap, the fragment is
-emitted as heading and as paragraph. -/
-theorem element_tree_dup_counterexample :
-    ¬ (idsOf (elementTree bboxOverlaps [⟨⟨320, 700, 100, 12⟩, [0]⟩] [] [⟨⟨0, 700, 100, 12⟩, [0]⟩])).Perm
+/-- repetition BEFORE the repair: the same heading in the second column, where the paragraph box
+is column-relative (x = 0) while the heading box is absolute (x = 320): no overlap, the fragment
+is emitted as heading and as paragraph. -/
+theorem element_tree_dup_pinned_counterexample :
+    ¬ (idsOf (elementTreeOld bboxOverlaps [⟨⟨320, 700, 100, 12⟩, [0]⟩] [] [⟨⟨0, 700, 100, 12⟩, [0]⟩])).Perm
       (idsOf [⟨⟨0, 700, 100, 12⟩, [0]⟩]) := by
   intro h
   have := h.length_eq
   revert this
   decide +kernel
 
+/-- the same two witnesses on the repaired tree: heading [0] and the remainder [1] of the
+paragraph; heading [0] and nothing of the paragraph -/
+example (rbox : Elem → List Nat → Box) :
+    idsOf (elementTree rbox [⟨⟨72, 700, 100, 12⟩, [0]⟩] [] [⟨⟨72, 688, 100, 24⟩, [0, 1]⟩]) = [0, 1] ∧
+    idsOf (elementTree rbox [⟨⟨320, 700, 100, 12⟩, [0]⟩] [] [⟨⟨0, 700, 100, 12⟩, [0]⟩]) = [0] := by
+  constructor <;> rfl
 
-/-! ## element_tree: what holds for ALL inputs
+/-! ## element_tree: the tree before the repair, for ALL inputs (history)
 
-`element_tree_once` is false for the code as it is (recorded finding). Two statements that are
-true for every overlap decision, every heading/list/paragraph list, and say exactly how far the
-tree is from conserving: -/
+Two statements that are true for every overlap decision, every heading/list/paragraph list, and
+say exactly how far the old tree was from conserving: -/
 
-/-- the balance of the element tree: the elements together with the suppressed paragraphs show
-what the headings, the lists and all paragraphs show. Whatever is lost is in a suppressed
-paragraph and in no heading/list; whatever is repeated is in a heading/list and in a paragraph
+/-- the balance of the old element tree: the elements together with the suppressed paragraphs
+show what the headings, the lists and all paragraphs show. Whatever was lost is in a suppressed
+paragraph and in no heading/list; whatever was repeated is in a heading/list and in a paragraph
 that was not suppressed. -/
-theorem element_tree_balance (ov : Box → Box → Bool) (hs ls ps : List Elem) :
-    (idsOf (elementTree ov hs ls ps) ++ idsOf (ps.filter (consumed ov hs ls))).Perm
+theorem element_tree_old_balance (ov : Box → Box → Bool) (hs ls ps : List Elem) :
+    (idsOf (elementTreeOld ov hs ls ps) ++ idsOf (ps.filter (consumed ov hs ls))).Perm
       (idsOf (hs ++ ls) ++ idsOf ps) := by
-  unfold elementTree idsOf
+  unfold elementTreeOld idsOf
   rw [List.flatMap_append, List.append_assoc]
   refine List.Perm.append_left _ ?_
   have h2 : ((ps.filter (consumed ov hs ls)) ++ ps.filter (fun p => !consumed ov hs ls p)).Perm ps :=
@@ -288,27 +315,27 @@ theorem element_tree_balance (ov : Box → Box → Bool) (hs ls ps : List Elem) 
   rw [List.flatMap_append] at h3
   exact List.perm_append_comm.trans h3
 
-/-- `element_tree_once_partial` is sharp: the tree conserves the fragment ids IF AND ONLY IF the
-headings and lists show exactly the fragments of the suppressed paragraphs. -/
-theorem element_tree_once_iff (ov : Box → Box → Bool) (hs ls ps : List Elem) :
-    (idsOf (elementTree ov hs ls ps)).Perm (idsOf ps) ↔
+/-- `element_tree_old_once_partial` is sharp: the old tree conserved the fragment ids IF AND ONLY
+IF the headings and lists showed exactly the fragments of the suppressed paragraphs. -/
+theorem element_tree_old_once_iff (ov : Box → Box → Bool) (hs ls ps : List Elem) :
+    (idsOf (elementTreeOld ov hs ls ps)).Perm (idsOf ps) ↔
       (idsOf (hs ++ ls)).Perm (idsOf (ps.filter (consumed ov hs ls))) := by
   constructor
   · intro h
-    have hb := element_tree_balance ov hs ls ps
-    -- tree ++ C ~ H ++ ps  and  tree ~ ps   ⇒   ps ++ C ~ H ++ ps   ⇒   C ~ H
+    have hb := element_tree_old_balance ov hs ls ps
     have h1 : (idsOf ps ++ idsOf (ps.filter (consumed ov hs ls))).Perm (idsOf (hs ++ ls) ++ idsOf ps) :=
       (h.symm.append_right _).trans hb
     have h2 : (idsOf (ps.filter (consumed ov hs ls)) ++ idsOf ps).Perm (idsOf (hs ++ ls) ++ idsOf ps) :=
       List.perm_append_comm.trans h1
     exact ((List.perm_append_right_iff _).mp h2).symm
-  · exact element_tree_once_partial ov hs ls ps
+  · exact element_tree_old_once_partial ov hs ls ps
 
-/-- without headings and lists nothing is suppressed and the tree is the paragraph list -/
-theorem element_tree_no_headings (ov : Box → Box → Bool) (ps : List Elem) :
-    elementTree ov [] [] ps = ps := by
-  unfold elementTree consumed
-  simp
+/-- without headings and lists the tree is the paragraph list (as before the repair) -/
+theorem element_tree_no_headings (rbox : Elem → List Nat → Box) (ps : List Elem) :
+    elementTree rbox [] [] ps = ps := by
+  unfold elementTree shownHeadings
+  simp only [List.filter_nil, List.flatMap_nil, List.append_nil, List.nil_append]
+  exact remainingPars_nil rbox ps
 
 /-! ## assemble_conserves -/
 
